@@ -50,11 +50,11 @@ func drawC16(rt *rapid.T) C16Spec {
 	s := C16Spec{LibSeed: rapid.Uint64().Draw(rt, "libseed")}
 	n := rapid.IntRange(1, 3).Draw(rt, "ngens")
 	for i := 0; i < n; i++ {
-		s.Bits = append(s.Bits, rapid.SampledFrom([]int{128, 128, 160, 192, 256}).Draw(rt, "bits"))
+		s.Bits = append(s.Bits, rapid.SampledFrom([]int{128, 128, 130, 136, 146, 160, 192, 210, 256, 258}).Draw(rt, "bits"))
 		s.Attrs = append(s.Attrs, rapid.IntRange(1, 20).Draw(rt, "attrs"))
 	}
 	if rapid.IntRange(0, 3).Draw(rt, "find") == 0 {
-		s.FindPrime = rapid.SampledFrom([]int{64, 80, 96}).Draw(rt, "findsize")
+		s.FindPrime = rapid.SampledFrom([]int{64, 65, 73, 80, 96, 97}).Draw(rt, "findsize")
 	}
 	s.Procs = rapid.SampledFrom([]int{1, 2, 3, 4, 8, 16}).Draw(rt, "procs")
 	ns := rapid.IntRange(0, 600).Draw(rt, "nsched")
